@@ -1722,6 +1722,9 @@ impl Scenario for C16 {
             "the twin that never restarts is the oracle: an operation that panics on it ends the life without a verdict".into(),
         ]
     }
+    fn extra_coverage(_tier: Tier) -> serde_json::Value {
+        serde_json::json!({ "state_abstraction": "(object type, life stage in {fresh, after-op, after-refusal, after-restart}, medium, restart generation capped at 4)" })
+    }
     fn components() -> serde_json::Value {
         serde_json::json!({
             "real": ["serde_json / bincode (de)serialisation of every rateslib type", "JSON trait, tagged DeserializedObj container (via verif-hooks)", "rebuild-on-load data models (NamedCal, FXRates)", "PartialEq of every type", "every query used by the suites (calendar arithmetic, curve look-ups, FX rates, spline evaluation, gradient read-back)"],
